@@ -41,7 +41,7 @@ F == INSTANCE CfbFault WITH SectorLen <- SLEN, MiniLen <- 2, Cutoff <- 8, FatPer
                             DirCount <- V4, NameLess <- MCLess, NameEq <- MCEq, FreeFirst <- Old,
                             KeepLog <- FALSE, KeepDisk <- TRUE
 P == INSTANCE CfbPhys WITH SectorLen <- SLEN, MiniLen <- 2, Cutoff <- 8, FatPer <- 4, DirPer <- 2, DifatHdr <- 1,
-                           DirCount <- V4, NameLess <- MCLess, NameEq <- MCEq, ModuloPolicy <- FALSE
+                           DirCount <- V4, NameLess <- MCLess, NameEq <- MCEq, ModuloPolicy <- FALSE, TrackData <- FALSE, Scrub <- TRUE
 O == INSTANCE CfbOpen WITH DifatHdrLen <- 1, MiniLen <- 2, CutoffLen <- 8, NameLess <- MCLess, NameKnown <- MCKnown,
                            RootNameStr <- "Root Entry"
 
